@@ -2324,7 +2324,17 @@ where
                 message: e.to_string(),
             })?;
 
-    let context = build_k1_forward_context_from_cell(tds, cell_key, vertex_key)?;
+    let context = match build_k1_forward_context_from_cell(tds, cell_key, vertex_key) {
+        Ok(context) => context,
+        Err(err) => {
+            // Do not leave the freshly inserted vertex behind (isolated) when the target cell
+            // is missing or unusable.
+            if let Some(inserted) = tds.get_vertex_by_key(vertex_key).copied() {
+                let _ = tds.remove_vertex(&inserted);
+            }
+            return Err(err);
+        }
+    };
     let result = apply_bistellar_flip::<K, U, V, D, 1>(tds, kernel, &context);
 
     if result.is_err()
@@ -2628,7 +2638,7 @@ where
         repair_delaunay_with_flips_k2_k3_attempt(tds, kernel, seed_cells, &attempt1)
     };
 
-    match attempt1_result {
+    let result = (|| match attempt1_result {
         Ok(stats) => {
             if verify_repair_postcondition(tds, kernel, seed_cells).is_ok() {
                 return Ok(stats);
@@ -2670,7 +2680,7 @@ where
             }
 
             // Final attempt with alternate queue order.
-            *tds = tds_snapshot;
+            *tds = tds_snapshot.clone();
             let stats3 = if D == 2 {
                 repair_delaunay_with_flips_k2_attempt(tds, kernel, retry_seed_cells, &attempt3)
             } else {
@@ -2723,7 +2733,7 @@ where
             }
 
             // Final attempt with alternate queue order.
-            *tds = tds_snapshot;
+            *tds = tds_snapshot.clone();
             let stats3 = if D == 2 {
                 repair_delaunay_with_flips_k2_attempt(tds, kernel, retry_seed_cells, &attempt3)
             } else {
@@ -2740,7 +2750,15 @@ where
             Ok(stats3)
         }
         Err(err) => Err(err),
+    })();
+
+    // A failed repair must leave the triangulation exactly as it was: every error path above
+    // (including a failed final attempt or a flip error inside an attempt) would otherwise
+    // return with `tds` holding a partially repaired state.
+    if result.is_err() {
+        *tds = tds_snapshot;
     }
+    result
 }
 
 /// Run a seeded, bounded Delaunay repair capped to a specific set of cells.
